@@ -8,7 +8,7 @@ from gen import cfmt as G
 def main():
     chk = common.Check('C11')
     import cfmt_common as C
-    proved = chk.prove('I18n.Props.C11', generated=('cfmt',))
+    proved = chk.prove('I18n.Props.C11', generated=('cfmt', 'cfmtconv'))
     tie_ok = C.prove_tie(chk)
     problems = ' '.join(chk.lean.problems)
     driver_ok = os.path.exists(common.driver_path()) and not any('untranslatable' in s for s in chk.lean.translation.values()) \
